@@ -921,13 +921,14 @@ func TestVfC17Sessions(t *testing.T) {
 // ---------------------------------------------------------------- named scenarios
 
 type vfC17ScenResult struct {
-	Name   string `json:"name"`
-	Viol   string `json:"viol"` // "" or the violation key
-	What   string `json:"what"`
-	Obs    string `json:"obs"`
-	Detail string `json:"detail"`
-	Err    string `json:"err"`    // harness problem: the scenario could not be set up
-	Unsure string `json:"unsure"` // a wall-clock observation could not be settled: no verdict from this scenario
+	Name   string  `json:"name"`
+	Viol   string  `json:"viol"` // "" or the violation key
+	What   string  `json:"what"`
+	Obs    string  `json:"obs"`
+	Detail string  `json:"detail"`
+	Err    string  `json:"err"`    // harness problem: the scenario could not be set up
+	Unsure string  `json:"unsure"` // a wall-clock observation could not be settled: no verdict from this scenario
+	Secs   float64 `json:"secs"`
 }
 
 // within runs fn; false = it did not return: provably stuck (a verdict) or - res.Unsure set - not settled.
@@ -1128,7 +1129,7 @@ func vfC17ScenHeartbeatAfterClose() vfC17ScenResult {
 		res.Err = "Close hung"
 		return res
 	}
-	vfC17Poll(vfC17DeadlineD(), func() bool { return len(vfC17DriverGoroutines()) == 0 })
+	vfC17Poll(300*time.Millisecond, func() bool { return len(vfC17DriverGoroutines()) == 0 }) // (information only)
 	before := len(vfC17DriverGoroutines())
 	cc := createControlConn(s) // as Session.init does
 	cc.close()                 // Session.Close -> controlConn.close(), state is still "starting"
@@ -1830,7 +1831,9 @@ func TestVfC17Scenarios(t *testing.T) {
 			// a scenario that could not be set up or settled is repeated on a fresh cluster before it counts as
 			// "no verdict"
 			for attempt := 0; attempt < 3; attempt++ {
+				t0 := time.Now()
 				res := f()
+				res.Secs = time.Since(t0).Seconds()
 				if res.Unsure != "" {
 					res.Viol, res.What = "", ""
 					if res.Err == "" {
